@@ -578,6 +578,7 @@ environment and is independent of the narrowed variable). -/
 inductive BCond where
   | leaf (c : Cond)
   | other (c : Cond)
+  | capture (c : Cond)   -- an atom on a *capture* of the same object (`case y if y is None`): another varname
   | opaque (i : Nat)
   | not (b : BCond)
   | and (bs : List BCond)
@@ -595,6 +596,7 @@ for OR (`AC.apply` on `.or`: some group empty ⇒ nothing is applied). -/
 def BCond.acIdeal (T : BoolTable) : BCond → AC
   | .leaf c => .k (c.k T)
   | .other _ => .otherK
+  | .capture _ => .otherK
   | .opaque _ => .null
   | .not b => (b.acIdeal T).invert
   | .and bs => AC.mkAnd (BCond.acIdealL T bs).reverse
@@ -638,6 +640,7 @@ annotated with the `AndConstraint`; for `or` the bare union (name_check_visitor.
 def BCond.cv (T : BoolTable) : BCond → CVal
   | .leaf c => ⟨.null, [.k (c.k T)]⟩
   | .other _ => ⟨.null, [.otherK]⟩
+  | .capture _ => ⟨.null, [.otherK]⟩
   | .opaque _ => ⟨.null, [.null]⟩
   | .not b => ⟨.null, [(b.cv T).ext.invert]⟩
   | .and bs =>
@@ -716,5 +719,36 @@ def matchBody (tbl : ClassTable) (T : BoolTable) (v : Ty) (ps : List Pat) (i : N
 and the fall-through scope are combined -/
 def matchAfter (tbl : ClassTable) (T : BoolTable) (v : Ty) (ps : List Pat) : Ty :=
   unite ((List.range (ps.length + 1)).map (matchBody tbl T v ps))
+
+/-! ### guarded cases (name_check_visitor.py:5712-5745) -/
+
+/-- a case of a `match` statement: a pattern and an optional guard (any condition of the grammar:
+atoms on the subject, on a capture, on another variable, opaque operands) -/
+structure MCase where
+  pat : Pat
+  guard : Option BCond := none
+  deriving Inhabited
+
+/-- the constraints `visit_Match` collects for a case: the pattern's and — *also when it is the null
+constraint* — the guard's (`constraint_from_condition(case.guard)`) -/
+def MCase.acs (T : BoolTable) (c : MCase) : List AC :=
+  c.pat.ac T :: (match c.guard with | some g => [g.ac T] | none => [])
+
+/-- what is added for the following cases and the code after the statement:
+`AndConstraint.make(constraints).invert()`. With an opaque guard this is `OR(¬pattern, NULL)`, which
+applies nothing: an object that matched the pattern but failed the guard flows on. -/
+def MCase.negKs (T : BoolTable) (c : MCase) : List K := (AC.mkAnd (c.acs T)).invert.apply
+
+/-- what is active in the body: `add_constraint(case.pattern, …)`, then `add_constraint(case.guard, …)` -/
+def MCase.posKs (T : BoolTable) (c : MCase) : List K := AC.applyL (c.acs T)
+
+def gcaseKs (T : BoolTable) (cs : List MCase) (i : Nat) : List K :=
+  ((cs.take i).flatMap (MCase.negKs T)) ++ (match cs[i]? with | some c => c.posKs T | none => [])
+
+def gmatchBody (tbl : ClassTable) (T : BoolTable) (v : Ty) (cs : List MCase) (i : Nat) : Ty :=
+  constrainKs tbl T v (gcaseKs T cs i)
+
+def gmatchAfter (tbl : ClassTable) (T : BoolTable) (v : Ty) (cs : List MCase) : Ty :=
+  unite ((List.range (cs.length + 1)).map (gmatchBody tbl T v cs))
 
 end Pya.C02
